@@ -62,7 +62,7 @@ def gen(seed: int, tier: str, idx=None):
         s = rng.randrange(len(m.sheets))
         t = rng.randrange(len(m.sheets[s].tables))
         tm = m.sheets[s].tables[t]
-        k = rng.choices(["write", "add_table", "add_sheet", "style", "border", "merge", "add_row", "add_col", "format", "custom_format"], [10, 1, 1, 2, 3, 2.5, 1, 1, 4, 1.5])[0]
+        k = rng.choices(["write", "add_table", "add_sheet", "style", "border", "merge", "add_row", "add_col", "format", "custom_format", "formula"], [10, 1, 1, 2, 3, 2.5, 1, 1, 4, 1.5, 2.5])[0]
         if k == "write":
             g.emit({"op": "write", "d": 0, "s": s, "t": t, "r": rng.randrange(tm.nrows + 1), "c": rng.randrange(tm.ncols + 1), "v": V.enc(g.value())})
         elif k == "add_table":
@@ -80,6 +80,14 @@ def gen(seed: int, tier: str, idx=None):
             g.emit({"op": "merge", "d": 0, "s": s, "t": t, "rects": [gen_rect(g, tm, rng)]})
         elif k == "add_row":
             g.emit({"op": "add_row", "d": 0, "s": s, "t": t, "n": rng.randint(1, 3)})
+        elif k == "formula":
+            # cells that carry a formula id, alone or together with a control/format id
+            rr, cc = rng.randrange(tm.nrows), rng.randrange(tm.ncols)
+            g.emit({"op": "write", "d": 0, "s": s, "t": t, "r": rr, "c": cc, "v": V.enc(V.gen_value(rng, {"i": 3, "f": 3}, False))})
+            g.emit({"op": "set_formula", "d": 0, "s": s, "t": t, "r": rr, "c": cc, "k": rng.randrange(1000)})
+            if rng.random() < 0.5:
+                g.emit({"op": "set_format", "d": 0, "s": s, "t": t, "r": rr, "c": cc, "k": rng.randrange(1000),
+                        "kind": rng.choice(["slider", "stepper", "popup_num", "currency", "number", "rating"])})
         elif k in ("format", "custom_format"):
             rr, cc = rng.randrange(tm.nrows), rng.randrange(tm.ncols)
             g.emit({"op": "write", "d": 0, "s": s, "t": t, "r": rr, "c": cc, "v": V.enc(V.gen_value(rng, {"i": 3, "f": 3, "b": 1, "s": 1, "dt": 1}, False))})
